@@ -1489,7 +1489,15 @@ class Interp:
                 return r if sym == "==" else z_not(r)
         if self.concrete:
             return V._pycmp(sym, a, b)
-        return self.A.cmp(sym, a, b)
+        if not self.A.shadow:
+            return self.A.cmp(sym, a, b)
+        del self.A.pending_divergence[:]
+        r = self.A.cmp(sym, a, b)
+        for msg in self.A.pending_divergence:
+            # the branch the real code takes is not the one the exact value takes: reaching this comparison is the obligation
+            self.oblige(st, "float-divergence", False, msg)
+        del self.A.pending_divergence[:]
+        return r
 
     def ex_Attribute(self, st, e):
         base = self.eval(st, e.value)
